@@ -134,6 +134,9 @@ def run(ctx):
     cg = callgraph(prog)
     rep.rule("TLV-1", "ForwardTLV only under announce_propagate(); accepted types = IEEE Table 52", floor=2)
     rep.rule("TLV-2", "every TLV append is gated on room + sender and paired with the margin decrement", floor=2)
+    rep.rule("TLV-12", "the size a forwarded TLV is accounted with is its wire size - shared with C10 TX-12", floor=1)
+    from rules import c10 as _c10
+    _c10.check_forwarded_size(rep, prog, "TLV-12")
     rep.rule("TLV-10", "a TLV taken from the provider (next_if_smaller == Some: removed from the queue, size <= room) is "
                        "appended without a further size test (no loss at exact fit)", floor=1)
     rep.rule("TLV-3", "own path trace = received path + own identity; a looped Announce (own identity anywhere in the received path) has no effect", floor=3)
